@@ -59,7 +59,8 @@ def main():
         if not ok:
             ob["broken"].append("leanchecker rejected the compiled proofs")
             ob["ok"] = False
-    return common.finish(prop, tier, seed, ob, res, t0, getattr(mod, 'ASSUMPTIONS', []), extra)
+    return common.finish(prop, tier, seed, ob, res, t0, getattr(mod, 'ASSUMPTIONS', []), extra,
+                         getattr(mod, 'LEVEL', 'proof'))
 
 
 if __name__ == "__main__":
